@@ -77,9 +77,42 @@ def _gate_cut_reset_cases():
                             "always_oracle": True})
 
 
+def _reset_gate_reset_cases():
+    """second clause, re-use workflows: on one wire a reset, then ONLY two-qubit gates in which this wire is not the first operand (cx / cy target,
+    second argument of cz / ch / rzz), then another reset, and the wire is used again afterwards.  The two resets are not consecutive - the wire
+    was entangled in between - so both must stay and the reconstructed values must be those of the uncut circuit.  The resets come from Moves
+    (a Move leaves its source in |0>: Move away, use the wire as a fresh target, Move away again, carry on) and / or from the user."""
+    def g(name, qs, *params):
+        return {"name": name, "qubits": list(qs), **({"params": list(params)} if params else {})}
+    r = lambda q: {"name": "reset", "qubits": [q]}   # noqa: E731
+    mv = lambda a, b: {"name": "move", "qubits": [a, b]}   # noqa: E731
+    fam = [
+        # a=0, b=1 | c=2, d=3: Move(a->c); cx(b,a); Move(a->d); new work on a
+        (4, [g("ry", [0], 0.7), g("ry", [1], 1.1), g("cx", [0, 1]), mv(0, 2), g("cx", [1, 0]), mv(0, 3), g("ry", [0], 0.4), g("cx", [0, 1])],
+         [], ["ZIII", "IZII", "ZZIZ", "XXII", "IIZI", "XIIZ"], True, False, None),
+        # the same with cz then cy in between, unseparated call form
+        (4, [g("ry", [0], 0.7), g("ry", [1], 1.1), g("cx", [0, 1]), mv(0, 2), g("h", [1]), g("cz", [1, 0]), g("cy", [1, 0]), mv(0, 3), g("ry", [0], 0.4),
+             g("cx", [0, 1])], [], ["ZIII", "IZII", "ZZIZ", "XXII", "IIZI"], True, True, None),
+        # ... and the first Move's qubit comes back onto a (Move(c->a)): a chain that re-uses a twice; finite budget
+        (4, [g("ry", [0], 0.7), g("ry", [1], 1.1), g("cx", [0, 1]), mv(0, 2), g("cx", [1, 0]), mv(0, 3), mv(2, 0), g("cx", [0, 1]), g("ry", [0], 0.4)],
+         [], ["ZIII", "IZII", "ZZIZ"], False, False, 40),
+        # one Move, then the user re-initialises the wire by hand after having used it as a cx target
+        (3, [g("ry", [0], 0.7), g("ry", [1], 1.1), g("cx", [0, 1]), mv(0, 2), g("cx", [1, 0]), r(0), g("ry", [0], 0.4), g("cx", [0, 1])],
+         [], ["ZII", "IZI", "ZZZ", "XXI", "IIZ"], True, False, None),
+        # user resets only, gate cut elsewhere: reset, cx / rzz with the wire as second operand, reset, more gates
+        (3, [g("h", [0]), g("ry", [1], 0.9), g("cx", [0, 1]), r(1), g("cx", [0, 1]), g("rzz", [0, 1], 0.8), r(1), g("ry", [1], 0.4), g("cx", [1, 2]),
+             g("ry", [2], 0.3)], [8], ["IZI", "IZZ", "ZZX", "XIZ"], True, False, None),
+    ]
+    for k, (nq, instrs, cut_ids, obs, auto, single, n_) in enumerate(fam):
+        yield ("workflow", {"kind": "reuse_chain", "nq": nq, "qregs": [nq], "instrs": instrs, "cut_ids": cut_ids,
+                            "obs": [{"l": l, "p": 0} for l in obs], "auto": auto, "N": n_, "seed": 191500 + k, "single": single,
+                            "always_oracle": True})
+
+
 def cases(rng, tier):
     N = 50 if tier == "quick" else 600
     yield from _gate_cut_reset_cases()
+    yield from _reset_gate_reset_cases()
     for two in ("cz", "cy", "ch"):
         yield _dest_used_case(rng, two)
     for k in range(2):
